@@ -710,3 +710,102 @@ func (l *ledger) siblingBranch(parent, b *types.Block, t uint32, exp uint64) {
 		return
 	}
 }
+
+// assetIndexKnows: does node n's stable asset index know every asset code / id the block's asset txs refer to?
+func assetIndexKnows(n *Node, b *types.Block) bool {
+	for _, tx := range b.Txs {
+		var code common.Hash
+		switch tx.Type() {
+		case params.IssueAssetTx, params.ReplenishAssetTx, params.ModifyAssetTx:
+			var d struct {
+				AssetCode common.Hash `json:"assetCode"`
+			}
+			json.Unmarshal(tx.Data(), &d)
+			code = d.AssetCode
+		case params.TransferAssetTx:
+			var d struct {
+				AssetId common.Hash `json:"assetId"`
+			}
+			json.Unmarshal(tx.Data(), &d)
+			code = d.AssetId
+		default:
+			continue
+		}
+		if is, err := n.DB.GetAssetCode(code); err != nil || is == (common.Address{}) {
+			return false
+		}
+	}
+	return true
+}
+
+// signerFact: the recovered signer addresses (`fs` / `ps` of the op line) are produced by the code under test; the generator
+// KNOWS which keys signed which tx. For a tx that was not edited after signing the recovered set must be exactly the
+// addresses of those keys; for a tx edited after signing (tampered by construction) at least one of its signature sets must
+// NOT recover to the keys that signed — otherwise a signing hash does not cover what was edited.
+func (l *ledger) signerFact(lt *ledgerTx) {
+	c := l.c
+	set := func(keys []string) string {
+		m := map[string]bool{}
+		for _, kn := range keys {
+			m[fmt.Sprintf("%d", l.label(keyAddr(l.key(kn))))] = true
+		}
+		var out []string
+		for k := range m {
+			out = append(out, k)
+		}
+		sort.Strings(out)
+		return strings.Join(out, ",")
+	}
+	recSet := func(which string) (string, bool) {
+		r := l.signersOf(lt.tx, which)
+		if r == "!" {
+			return "", false
+		}
+		if r == "-" {
+			return "", true
+		}
+		m := map[string]bool{}
+		for _, x := range strings.Split(r, ",") {
+			m[x] = true
+		}
+		var out []string
+		for k := range m {
+			out = append(out, k)
+		}
+		sort.Strings(out)
+		return strings.Join(out, ","), true
+	}
+	fromGot, fromOK := recSet("from")
+	payerGot, payerOK := recSet("payer")
+	fromWant, payerWant := set(lt.fromKeys), set(lt.payerKeys)
+	if len(lt.fromKeys) == 0 || lt.class == "payer-unsigned" {
+		// classes that do not record who signed; payer-unsigned: signed under the reimbursement hash but carrying no payer
+		// signature, so the plain signing hash applies — the signature is not expected to recover its key
+		return
+	}
+	if !lt.tampered {
+		if !fromOK {
+			c.Count("fed-fact:signers:recovery-error:" + lt.class)
+			return
+		}
+		c.Count("fed-fact:signers:compared")
+		if fromGot != fromWant {
+			c.Fail("c06/fed-fact/signers", fmt.Sprintf("tx of class %s was signed by the keys of accounts {%s}; GetSigners recovers {%s}", lt.class, fromWant, fromGot), nil)
+		}
+		if len(lt.payerKeys) > 0 && payerOK && payerGot != payerWant {
+			c.Fail("c06/fed-fact/signers", fmt.Sprintf("tx of class %s: gas payer part signed by {%s}; GetSigners recovers {%s}", lt.class, payerWant, payerGot), nil)
+		}
+		return
+	}
+	// edited after signing
+	fromSurvives := fromOK && fromGot == fromWant
+	payerSurvives := len(lt.payerKeys) == 0 || (payerOK && payerGot == payerWant)
+	c.Count("fed-fact:signers:tampered-compared")
+	if fromSurvives && payerSurvives {
+		cls := lt.class
+		if i := strings.Index(cls, "@"); i > 0 && strings.HasPrefix(cls, "tamper-box-multi:") {
+			cls = cls[:i] + "@" + map[bool]string{true: "first", false: "later"}[strings.Contains(cls, "@0/")]
+		}
+		c.Fail("c06/fed-fact/signers-survive-tamper/"+cls, fmt.Sprintf("tx of class %s was edited after signing, yet every signature still recovers to the keys that signed ({%s}%s): the signing hash does not cover the edit", lt.class, fromWant, map[bool]string{true: " / payer {" + payerWant + "}", false: ""}[len(lt.payerKeys) > 0]), nil)
+	}
+}
